@@ -76,6 +76,9 @@ pub struct Profile {
     pub overflow: bool,
     /// generator guards of open known findings are active
     pub guards: bool,
+    /// texts, string literals, sheet names, link targets and labels come from the pool of
+    /// strings that stress a text serialisation (control characters, XML specials, escapes)
+    pub hostile: bool,
 }
 
 /// Rendering context for texts in the run's language and locale.
@@ -345,11 +348,71 @@ const TEXTS: [&str; 16] = [
     "A1",
 ];
 
+/// What a text format has to escape, preserve or refuse: C0 controls, XML specials and
+/// look-alike entities, the `_xHHHH_` escape convention of SpreadsheetML, CR/LF forms,
+/// significant white space, non-characters, astral and combining code points.
+pub const HOSTILE_TEXTS: [&str; 36] = [
+    "\u{1}ctrl",
+    "a\u{b}b",
+    "bell\u{7}",
+    "nul\u{0}nul",
+    "_x0041_",
+    "_x000D_",
+    "_x005F_x0041_",
+    "cr\rlf",
+    "crlf\r\nx",
+    "\r",
+    "]]>",
+    "<![CDATA[x]]>",
+    "&#10;",
+    "&lt;",
+    "&",
+    "<",
+    "a<b>c&d\"e'f",
+    "\u{1F600} emoji",
+    "\u{FFFE}",
+    "\u{FFFF}",
+    "e\u{301}",
+    "\u{200B}zero",
+    "  two  spaces  ",
+    "\t",
+    "\n",
+    " ",
+    "\u{A0}nbsp",
+    "\u{85}nel",
+    "\u{2028}ls",
+    "\u{FEFF}bom",
+    "'",
+    "''",
+    "\"",
+    "\u{7f}del",
+    "\u{1b}[0m",
+    "x\u{D7FF}\u{E000}y",
+];
+
+thread_local! {
+    /// set from the profile at the start of every generated event (string literals deep in
+    /// the formula grammar have no profile at hand)
+    static HOSTILE: std::cell::Cell<bool> = const { std::cell::Cell::new(false) };
+}
+
+fn hostile() -> bool {
+    HOSTILE.with(|h| h.get())
+}
+
 pub fn value_text(rng: &mut Rng, loc: &Loc, p: &Profile) -> String {
     let k = rng.weighted(&[30, 6, 18, 8, 14, 4, 4, 3]);
     match k {
         0 => loc.num(*rng.pick(&PLAIN_NUMBERS)),
         1 => loc.num(*rng.pick(&EXTREME_NUMBERS)),
+        2 if p.hostile && rng.chance(0.6) => {
+            if rng.chance(0.05) {
+                // long text: beyond any buffer, below the 32767 limit of the file format
+                "long \u{1F600}<&>".repeat(rng.range(50, 1500) as usize)
+            } else {
+                rng.pick(&HOSTILE_TEXTS).to_string()
+            }
+        }
         2 => rng.pick(&TEXTS).to_string(),
         3 => {
             // booleans, localized and English, and errors
@@ -453,6 +516,10 @@ pub fn range_ref_opt(rng: &mut Rng, cx: &FCtx, full: bool) -> String {
 }
 
 fn string_lit(rng: &mut Rng) -> String {
+    if hostile() && rng.chance(0.5) {
+        let s = rng.pick(&HOSTILE_TEXTS).replace('"', "\"\"");
+        return format!("\"{s}\"");
+    }
     let s = *rng.pick(&["", "a", "abc", "1", "12", "TRUE", "x\"\"y", "á"]);
     format!("\"{s}\"")
 }
@@ -770,6 +837,7 @@ fn fam_weight(p: &Profile, f: Fam) -> u32 {
 }
 
 pub fn next_user_event(rng: &mut Rng, p: &Profile, v: &View) -> Ev {
+    HOSTILE.with(|h| h.set(p.hostile));
     let loc = Loc::new(v.lang, &v.locale);
     let ws: Vec<u32> = ALL_FAMS.iter().map(|f| fam_weight(p, *f)).collect();
     let fam = ALL_FAMS[rng.weighted(&ws)];
@@ -933,7 +1001,11 @@ pub fn next_user_event(rng: &mut Rng, p: &Profile, v: &View) -> Ev {
                 1 if n < 4 => Ev::DuplicateSheet { sheet: sh },
                 2 if n > 1 => Ev::DeleteSheet { sheet: sh },
                 3 | 4 => {
-                    let mut name = rng.pick(&SHEET_NAMES).to_string();
+                    let mut name = if p.hostile && rng.chance(0.6) {
+                        rng.pick(&["A&B", "<x>", "ünï 日本", "a\"b", "\u{1F600}", "x;y", "it's", "a>b", "_x0041_", " lead", "tab\tname", "&amp;"]).to_string()
+                    } else {
+                        rng.pick(&SHEET_NAMES).to_string()
+                    };
                     if v.sheets.iter().any(|s| s.to_lowercase() == name.to_lowercase()) {
                         name = format!("{name}{}", rng.range(2, 9));
                     }
@@ -977,9 +1049,16 @@ pub fn next_user_event(rng: &mut Rng, p: &Profile, v: &View) -> Ev {
                 Ev::DeleteLink { sheet: s, row: r, col: c }
             } else {
                 let link = if rng.chance(0.6) {
-                    Link::External {
-                        target: rng.pick(&["https://example.com", "mailto:a@b.c", "file.xlsx#Sheet1!A1"]).to_string(),
-                        tooltip: if rng.chance(0.3) { Some("tip".into()) } else { None },
+                    if p.hostile && rng.chance(0.6) {
+                        Link::External {
+                            target: rng.pick(&["https://example.com/?a=1&b=<2>", "https://example.com/\"q\"", "https://ex.com/ü 日本", "x.xlsx#'My Sheet'!A1", "https://e.com/#frag#2", "mailto:a@b.c?subject=<&>"]).to_string(),
+                            tooltip: if rng.chance(0.5) { Some(rng.pick(&HOSTILE_TEXTS).to_string()) } else { None },
+                        }
+                    } else {
+                        Link::External {
+                            target: rng.pick(&["https://example.com", "mailto:a@b.c", "file.xlsx#Sheet1!A1"]).to_string(),
+                            tooltip: if rng.chance(0.3) { Some("tip".into()) } else { None },
+                        }
                     }
                 } else {
                     Link::Internal { location: "Sheet1!A3".into(), tooltip: None }
@@ -989,7 +1068,11 @@ pub fn next_user_event(rng: &mut Rng, p: &Profile, v: &View) -> Ev {
                     row: row(rng, p),
                     col: col(rng, p),
                     link,
-                    label: if rng.chance(0.5) { Some(rng.pick(&["click", "12", "label"]).to_string()) } else { None },
+                    label: if rng.chance(0.5) {
+                        Some(if p.hostile && rng.chance(0.5) { rng.pick(&HOSTILE_TEXTS).to_string() } else { rng.pick(&["click", "12", "label"]).to_string() })
+                    } else {
+                        None
+                    },
                 }
             }
         }
